@@ -55,7 +55,7 @@ def cases(draw, name, max_n=40):
             kw["length"] = draw(st.integers(1, 8))
     elif name in PATS:
         if draw(st.booleans()):
-            kw["lookback"] = draw(st.integers(1, 6))
+            kw["lookback"] = draw(st.one_of(st.integers(1, 6), st.integers(7, 30)))
     return {"fn": name, "kw": kw, "stream": rows, "A": A, "B": B, "chunks": draw(gs.chunking(n))}
 
 
